@@ -778,13 +778,15 @@ class Gen(object):
                 p = prefix + (f["name"],)
                 out.append(p)
                 out += self.obj_paths(sc, f["cls"], p)
+            elif f["kind"] == "olist":
+                for i in range(f["n"]):
+                    p = prefix + (f["name"], i)
+                    out.append(p)
+                    out += self.obj_paths(sc, f["cls"], p)
         return out
 
     def class_at(self, sc, cname, path):
-        for n in path:
-            f = next(f for f in all_fields(sc, cname) if f["name"] == n)
-            cname = f["cls"]
-        return cname
+        return class_at_path(sc, cname, path)
 
 
 def rl_initial(sc, root_cls, name):
